@@ -1,6 +1,10 @@
 """C01 - NDEF write then read round-trips on every tag type and layout.
 
 legs: t1t, t2t, t3t, t3e (library's Type3TagEmulation is the tag), t4t; plus
+`t2t-sectors`: Type 2 Tags of more than one 1 KiB sector whose control TLVs
+reserve ranges near / across the sector boundaries, message lengths derived
+from the layout (ending around every reserved range, sector boundary and the
+end of the data area) - see run_sectors; plus
 `lengths`: every message length 0..cap+1 for a fixed set of small layouts
 (bounded exhaustive); plus `history`: several operations on ONE tag object
 (read, has_changed, assignments, repeated assignments, format), any of them
@@ -100,7 +104,7 @@ def input_class(desc, L, cap):
     return k
 
 
-def run(case, ctx):
+def run(case, ctx, nontrivial=nontrivial):
     desc = case["tag"]
     b = tc.build(desc, case["old"], case["old_seed"])
     if b is None:
@@ -207,6 +211,79 @@ def _firstdiff(a, b):
         if x != y:
             return i
     return min(len(a), len(b))
+
+
+# Type 2 Tags of more than one sector, lengths relative to the layout ----------
+def _spec(spec, info, cap):
+    """["anchor", i, d] -> ["abs", length] (see tc.anchor_len), others as is"""
+    if spec[0] == "anchor":
+        return ["abs", tc.anchor_len(info, cap, spec[1], spec[2])]
+    return spec
+
+
+def _tlv_span(info, L):
+    """first and last address the NDEF TLV of an L byte message occupies,
+    the terminator TLV behind it included when there is room for one"""
+    avail = info["avail"]
+    n = (2 if L < 255 else 4) + L
+    return avail[0], avail[min(n, len(avail) - 1)]
+
+
+def nontrivial_sectors(b, desc, L, cap):
+    if L == 0:
+        return False
+    first, last = _tlv_span(b.info, L)
+    return any(first < a <= last + 16 for a in tc.layout_anchors(b.info))
+
+
+def run_sectors(case, ctx):
+    """Oracle: run() unchanged (C01 round trip).  The old and the new message
+    length may be given relative to the layout: ["anchor", i, d] = the NDEF
+    TLV ends d available bytes behind the i-th anchor (border of a reserved
+    range, sector boundary, end of the data area) of the layout."""
+    desc = case["tag"]
+    probe = tc.build(desc)
+    if probe is None:
+        ctx.label("layout-without-room")
+        return
+    info, cap = probe.info, probe.cap
+    rsvd, end = info["reserved"], info["data_end"]
+    old, new = _spec(case["old"], info, cap), _spec(case["new"], info, cap)
+    ctx.label("sectors=%d" % (-(-info["phys"] // tc.T2_SECTOR)))
+    ctx.label("data-area-ends:" + (
+        "sector-0" if end < 1024 else "at-1024" if end == 1024 else
+        "sector-1" if end < 2048 else "at-2048" if end == 2048
+        else "sector-2"))
+    L = tc.resolve_len(new, cap)
+    for k in (1, 2):
+        s = k * tc.T2_SECTOR
+        if info["tlv_off"] < s < end and s in rsvd and (s - 1) in rsvd:
+            ctx.label("reserved-range-across-boundary-%d" % s)
+            if L and _tlv_span(info, min(L, cap))[1] > s:
+                ctx.label("message-continues-behind-range-across-%d" % s)
+                r0 = s
+                while (r0 - 1) in rsvd:
+                    r0 -= 1
+                if r0 <= s - 16:
+                    ctx.label("message-jumps-from-sector-%d-to-%d" % (k - 1, k))
+    if L and 0 < L <= cap:
+        last = _tlv_span(info, L)[1]
+        ctx.label("message-ends-in-sector-%d" % (last // tc.T2_SECTOR))
+    run(dict(case, old=old, new=new), ctx, nontrivial_sectors)
+
+
+def sectors_strategy(tier):
+    def length(over, share):
+        # 1 of ``share`` from the t2t leg's length set, the others anchored
+        # (weights through sampled_from: one_of flattens and drops repeats)
+        anchor = st.tuples(st.just("anchor"), st.integers(0, 15), st.one_of(
+            st.integers(-3, 3), st.integers(-20, 20)))
+        return st.sampled_from([0] + [1] * (share - 1)).flatmap(
+            lambda k: anchor if k else tc.len_spec(over))
+    return st.fixed_dictionaries({
+        "tag": tc.t2t_sector_desc(),
+        "old": length(False, 2), "old_seed": st.integers(0, 255),
+        "new": length(True, 4), "new_seed": st.integers(0, 255)})
 
 
 # histories on one tag object --------------------------------------------------
@@ -671,6 +748,27 @@ def _leg(name, desc, quick, thorough):
 LEGS = [
     _leg("t2t", st.one_of(tc.t2t_desc(), tc.t2t_desc(), tc.t2t_desc(),
                           tc.t2t_room()), 2400, 40000),
+    Leg("t2t-sectors", run=run_sectors, gen=sectors_strategy, quick=480,
+        thorough=12000, shards_quick=4, shards_thorough=16, nt_floor=0.3,
+        rule="constructed Type 2 Tag layouts at and beyond the 1 KiB sector "
+             "size (CC2 125..255: the data area ends just in front of / at / "
+             "behind the sector boundary 1024, in the second sector, at 2048 "
+             "or in the third sector; physical memory 0..40 bytes longer) "
+             "with 1..3 lock / memory control TLVs whose reserved range "
+             "starts up to 272 bytes in front of or 63 bytes behind a sector "
+             "boundary (every page address / byte offset / bytes-per-page "
+             "exponent 6..11 that addresses such a start) and has any size "
+             "(1..256 bytes, lock bytes 1..32) or ends -32..+48 bytes from "
+             "the boundary, optionally one arbitrary control / NULL / "
+             "proprietary TLV in front; x old and new message length either "
+             "from the t2t leg's set or RELATIVE TO THE LAYOUT: the NDEF TLV "
+             "ends d (-20..20, mostly -3..3) available bytes from an anchor "
+             "= first / one-past-last address of a reserved run, sector "
+             "boundary, end of the data area (so also capacity-d). Oracle "
+             "as leg t2t.  non-trivial = L>0 and the NDEF TLV (header, "
+             "value, terminator) crosses an anchor or ends within 16 bytes "
+             "in front of one, or the capacity+1 rejection; distinct by "
+             "case hash."),
     _leg("t1t", st.one_of(tc.t1t_desc(), tc.t1t_desc(), tc.t1t_desc(),
                           tc.t1t_room()), 1800, 30000),
     _leg("t3t", tc.t3t_desc("t3t"), 1500, 30000),
